@@ -260,6 +260,39 @@ theorem ids_apply (op : FOp) (k : Kind) (fs r : Fields) (h : op.apply k fs = .ok
     simp only [FOp.applyCore] at h
     cases h
     simp [Fields.ids] at hi
+  | update items =>
+    simp only [FOp.applyCore] at h
+    split at h
+    · cases h
+      have key : ∀ (l : List (String × V)) (acc : Fields),
+          i ∈ (l.foldl (fun acc kv => acc.set (mapKey k kv.1) kv.2) acc).ids →
+          i ∈ acc.ids ∨ ∃ kv ∈ l, i ∈ kv.2.ids := by
+        intro l
+        induction l with
+        | nil => intro acc h; exact Or.inl h
+        | cons kv l ih =>
+          intro acc h
+          simp only [List.foldl_cons] at h
+          rcases ih _ h with h | ⟨kv', hm, hi'⟩
+          · rcases ids_set _ _ _ _ h with h | h
+            · exact Or.inl h
+            · exact Or.inr ⟨kv, by simp, h⟩
+          · exact Or.inr ⟨kv', by simp [hm], hi'⟩
+      rcases key items fs hi with h | ⟨kv, hm, hi'⟩
+      · exact Or.inl h
+      · right
+        simp only [opIds, FOp.vals, List.mem_flatMap, List.mem_map]
+        exact ⟨kv.2, ⟨kv, hm, rfl⟩, hi'⟩
+    · cases h
+  | setdefault key v =>
+    have hv : opIds (.setdefault key v) = v.ids := by simp [opIds, FOp.vals]
+    rw [hv]
+    simp only [FOp.applyCore] at h
+    split at h
+    · cases h; exact Or.inl hi
+    · split at h
+      · cases h; exact ids_set _ _ _ _ hi
+      · cases h
 
 theorem ids_applyD (op : FOp) (k : Kind) (fs : Fields) (i : Nat)
     (hi : i ∈ (op.applyD k fs).ids) : i ∈ fs.ids ∨ i ∈ opIds op := by
